@@ -8,7 +8,8 @@ From Coq Require Export List Arith Bool.
 Export ListNotations.
 
 Definition addr := nat.
-Inductive fkind := Strong | Weak.
+(* Dead: a weak reference whose target has been collected (v() is None); its address is meaningless and written as 0 *)
+Inductive fkind := Strong | Weak | Dead.
 Record obj := { early : bool; fields : list (fkind * addr) }.
 Definition heap := list obj.
 Definition memo := list (addr * addr).        (* newest first *)
@@ -25,25 +26,36 @@ Fixpoint set_nth (h : heap) (i : nat) (o : obj) : heap :=
 
 Definition state := (heap * memo)%type.
 
-(* copy the targets of a field list left to right with the recursive copier `rec` *)
-Fixpoint copy_fields (rec : state -> addr -> option (state * addr)) (fs : list (fkind * addr)) (s : state) : option (state * list (fkind * addr)) :=
+(* copy the targets of a field list left to right with the recursive copier `rec`.  A dead weak reference has no target: it is kept as it is
+   (keep_dead = true, HookHost.__deepcopy__ since the repair); the pinned behaviour (keep_dead = false) deep-copied its target None and failed in
+   weakref.ref(None) with TypeError - the whole copy fails *)
+Fixpoint copy_fields_with (keep_dead : bool) (rec : state -> addr -> option (state * addr)) (fs : list (fkind * addr)) (s : state)
+  : option (state * list (fkind * addr)) :=
   match fs with
   | [] => Some (s, [])
+  | (Dead, t) :: rest =>
+      if keep_dead then
+        match copy_fields_with keep_dead rec rest s with
+        | None => None
+        | Some (s2, out) => Some (s2, (Dead, t) :: out)
+        end
+      else None
   | (k, t) :: rest =>
       match rec s t with
       | None => None
       | Some (s1, t') =>
-          match copy_fields rec rest s1 with
+          match copy_fields_with keep_dead rec rest s1 with
           | None => None
           | Some (s2, out) => Some (s2, (k, t') :: out)
           end
       end
   end.
+Definition copy_fields := copy_fields_with true.
 
-(* copy.deepcopy(x, memo): memo hit, else the object's own __deepcopy__.  Strong and weak fields are copied alike (a weak field whose
+(* copy.deepcopy(x, memo): memo hit, else the object's own __deepcopy__.  Strong and live weak fields are copied alike (a weak field whose
    target is in the memo takes the memo's copy, otherwise the target is deep-copied - which is what deepcopy does for any value);
    they differ only in keeping the target alive, which this model does not represent.  fuel = Python's recursion limit. *)
-Fixpoint dcopy (fuel : nat) (s : state) (a : addr) : option (state * addr) :=
+Fixpoint dcopy_with (keep_dead : bool) (fuel : nat) (s : state) (a : addr) : option (state * addr) :=
   let (h, m) := s in
   match mlookup m a with
   | Some a' => Some (s, a')
@@ -57,7 +69,7 @@ Fixpoint dcopy (fuel : nat) (s : state) (a : addr) : option (state * addr) :=
               let a' := length h in
               let h1 := h ++ [{| early := early o; fields := [] |}] in
               let m1 := if early o then (a, a') :: m else m in
-              match copy_fields (dcopy f) (fields o) (h1, m1) with
+              match copy_fields_with keep_dead (dcopy_with keep_dead f) (fields o) (h1, m1) with
               | None => None
               | Some ((h2, m2), out) =>
                   let h3 := set_nth h2 a' {| early := early o; fields := out |} in
@@ -66,8 +78,10 @@ Fixpoint dcopy (fuel : nat) (s : state) (a : addr) : option (state * addr) :=
           end
       end
   end.
+Definition dcopy := dcopy_with true.
 
 Definition deepcopy (fuel : nat) (h : heap) (root : addr) : option (state * addr) := dcopy fuel (h, []) root.
+Definition deepcopy_pinned (fuel : nat) (h : heap) (root : addr) : option (state * addr) := dcopy_with false fuel (h, []) root.
 
 (* correspondence: the originals in the order in which copy.deepcopy memoises them (oldest first) *)
 Definition memo_order (r : option (state * addr)) : option (list addr) :=
